@@ -8,6 +8,7 @@
 -/
 import VotelibProofs.Lemmas.Copeland2o
 import VotelibModel.CondorcetRanked
+import VotelibProofs.Lemmas.SchulzeDefining
 namespace VL.C05
 open VL VL.Condorcet
 
@@ -408,6 +409,23 @@ example : secondOrderScore exSecondOrder 1 = -2 ∧ secondOrderScore exSecondOrd
 theorem widestPaths_correct {v : Pairwise} (hwf : WF v) {a b : Cand} (hb : b ∈ candidates v) (hab : a ≠ b) :
     PathStr (winWeight v) a b (pget (widestPaths v) (a, b)) ∧
       ∀ s, PathStr (winWeight v) a b s → s ≤ pget (widestPaths v) (a, b) := widestPaths_maxmin hwf hb hab
+
+/-- **Schulze ranks by strongest-path wins.**  The value handed to `get_n_best` for candidate `c` is the number of
+    candidates `x` with `p[c, x] > p[x, c]`, where `p` is the strongest-path dictionary — which by `widestPaths_correct`
+    holds for every ordered pair the true beatpath strength (max over chains of pairwise wins of the weakest link);
+    boundary ties are then reported by `get_n_best` (C09).  So the evaluator is the textbook Schulze ranking by
+    beatpath wins, for every seat count. -/
+theorem schulze_defining {v : Pairwise} (hwf : WF v) (n : Nat) :
+    schulze v n = getNBest ((candidates v).map (fun c => (c, (schulzeWins v c : Rat)))) n
+    ∧ ∀ c, schulzeWins v c = ((candidates v).filter (fun x =>
+        decide (pget (widestPaths v) (x, c) < pget (widestPaths v) (c, x)))).length :=
+  ⟨schulze_by_path_wins hwf n, fun _ => rfl⟩
+
+/-- a three-cycle 0>1 (5:2), 1>2 (6:1), 2>0 (4:3): the strongest paths (0→1: 5, 0→2: 5, 1→2: 6, back 4 each) give 0 two wins, 1 one, 2 none -/
+def exSchulzeCycle : Pairwise := [((0, 1), 5), ((1, 0), 2), ((1, 2), 6), ((2, 1), 1), ((2, 0), 4), ((0, 2), 3)]
+example : WF exSchulzeCycle := by decide +kernel
+example : schulzeWins exSchulzeCycle 0 = 2 ∧ schulzeWins exSchulzeCycle 1 = 1 ∧ schulzeWins exSchulzeCycle 2 = 0 := by
+  decide +kernel
 
 theorem winWeight_is_win_count {v : Pairwise} (hwf : WF v) (x y : Cand) :
     winWeight v (x, y) = if pget v (y, x) < pget v (x, y) then pget v (x, y) else 0 := winWeight_eq hwf x y
